@@ -132,11 +132,11 @@ PROPS['C16'] = dict(
     level_text='Arithmetic, alignment and ordering obligations proved for all configurations on the real code; no enumeration of sizes.',
     level_note='Whole-history equivalence across configurations is not decided (tree layer). mmap_populate reaches only the mmap stub. check() completeness w.r.t. well-formedness is not under contract.',
     assumptions=[A_TOOLS, A_ARITH, A_FILE, A_VIEWS, A_PAGEMUT, A_SEQ, 'OS page sizes are multiples of 8 (Default for OpenOptions)', 'fs4 allocate / memmap2 map: the map covers every allocated byte (prelude/openfile.rs)'],
-    not_covered=['equality of return values and logical contents of whole histories across configurations', 'that strict mode never rejects a valid commit (needs completeness of TxInner::check)', 'Node::split thresholds (float arithmetic) until unit N4 is built'],
+    not_covered=['equality of return values and logical contents of whole histories across configurations', 'that strict mode never rejects a valid commit (needs completeness of TxInner::check)', 'the VALUE of the split threshold (float arithmetic, stub U22): Node::split is proved for ANY threshold, so no property depends on it'],
 )
 
 PROPS['C08'] = dict(
-    bounded_quick=[('cursor', 'Node::split / spill / write / free_page, InnerBucket::merge_nodes / rebalance / spill (Rc<RefCell<Node>> graph, float thresholds), Page::write_node / Node::from_page beyond the bounded Kani codec')],
+    bounded_quick=[('cursor', 'Node::spill and InnerBucket::merge_nodes / node (an Rc<RefCell<Node>> graph mutated through shared handles: outside both verifiers), Page::write_node (raw-pointer serialisation) beyond the bounded Kani codec; Node::split / write / free_page / NodeData::merge and InnerBucket::{rebalance, spill, page_node} ARE under contract (units split, nodeio, bucketcommit, overlay)')],
     level='proof',
     units=['range', 'cursor', 'pagenode', 'filters', 'bytes'],
     explanation='Ranges: Range::next is verified on its real body for a generic R: RangeBounds<&[u8]> (all nine combinations of included / excluded / unbounded) against the '
@@ -161,7 +161,7 @@ A_TREEIF = 'the tree a cursor walks is an abstract interface (prelude/cursor_tre
 A_ELEMS = 'element headers of mapped pages and their key bytes are stub views of the raw-pointer casts (U17/U18, Leaf/Branch key accessors); layout pinned by K1'
 
 PROPS['C07'] = dict(
-    bounded_quick=[('history', 'Node::split / spill / write / free_page, InnerBucket::merge_nodes / rebalance / spill (Rc<RefCell<Node>> graph, float thresholds), Page::write_node / Node::from_page beyond the bounded Kani codec'), ('cursor', 'Node::split / spill / write / free_page, InnerBucket::merge_nodes / rebalance / spill (Rc<RefCell<Node>> graph, float thresholds), Page::write_node / Node::from_page beyond the bounded Kani codec')],
+    bounded_quick=[('history', 'Node::spill and InnerBucket::merge_nodes / node (an Rc<RefCell<Node>> graph mutated through shared handles: outside both verifiers), Page::write_node (raw-pointer serialisation) beyond the bounded Kani codec; Node::split / write / free_page / NodeData::merge and InnerBucket::{rebalance, spill, page_node} ARE under contract (units split, nodeio, bucketcommit, overlay)'), ('cursor', 'Node::spill and InnerBucket::merge_nodes / node (an Rc<RefCell<Node>> graph mutated through shared handles: outside both verifiers), Page::write_node (raw-pointer serialisation) beyond the bounded Kani codec; Node::split / write / free_page / NodeData::merge and InnerBucket::{rebalance, spill, page_node} ARE under contract (units split, nodeio, bucketcommit, overlay)')],
     level='other',
     units=['pagenode', 'cursor', 'bucketops', 'range', 'filters', 'overlay'],
     explanation='A write transaction reads a MIXTURE of untouched mapped pages and modified in-memory nodes. Proved on the real bodies, for all node contents: '
@@ -171,13 +171,13 @@ PROPS['C07'] = dict(
                 'and keeps every stack entry inside its node on any such mixture; and (R2-full) next() yields every entry of the mixture exactly once in tree order, None only when none is left, '
                 'in particular across leaves whose entries were all deleted inside the transaction (defect E8, fixed).',
     level_text='Unbounded proofs of the per-node read/write operations, of cursor safety and of in-order completeness of the traversal; NOT a proof that the composed read API equals a model after every operation (the overlay rule and bucket-level operations are assumed / elsewhere).',
-    level_note='The overlay rule itself (InnerBucket::page_node: a page id resolves to the transaction\'s node iff one exists) could not be brought under contract: the real struct is a recursive Rc<RefCell<..>>/HashMap graph; it is an assumed interface of the cursor unit. Bucket-level put/delete/get and nested buckets are not under contract.',
+    level_note='The overlay rule (InnerBucket::page_node: a page id resolves to the transaction\'s node iff one exists, otherwise to the mapped page) is proved in unit overlay on the REAL InnerBucket struct (one field type replaced by an opaque stand-in, rule U23). The cursor unit still works against its abstract tree interface; identifying the two is by name.',
     assumptions=[A_TOOLS, A_ARITH, A_TREEIF, A_ELEMS, 'RefCell stand-in (sequential view)', 'byte-string order is a strict total order'],
-    not_covered=['InnerBucket::page_node overlay rule (N3)', 'bucket listing and point lookups through InnerBucket::get'],
+    not_covered=['that the cursor unit\'s abstract node interface is InnerBucket::page_node (proved in unit overlay on the real struct) is a link by name; InnerBucket::node (materialisation with parent links through shared handles) is not under contract', 'bucket listing and point lookups through InnerBucket::get'],
 )
 
 PROPS['C05'] = dict(
-    bounded_quick=[('history', 'Node::split / spill / write / free_page, InnerBucket::merge_nodes / rebalance / spill (Rc<RefCell<Node>> graph, float thresholds), Page::write_node / Node::from_page beyond the bounded Kani codec')],
+    bounded_quick=[('history', 'Node::spill and InnerBucket::merge_nodes / node (an Rc<RefCell<Node>> graph mutated through shared handles: outside both verifiers), Page::write_node (raw-pointer serialisation) beyond the bounded Kani codec; Node::split / write / free_page / NodeData::merge and InnerBucket::{rebalance, spill, page_node} ARE under contract (units split, nodeio, bucketcommit, overlay)')],
     level='proof',
     composition='the accounting part of INV (pending pages below the high-water mark, not free, pending once; live pages not free) is preserved by begin/end reader and commit: Verus lemma L2 (contracts/lemmas.vtmpl) under assumptions A1/A2',
     units=['freelist', 'commit', 'open', 'pagenode', 'lemmas', 'bucketops', 'nodeio', 'split', 'bucketcommit'],
@@ -187,16 +187,19 @@ PROPS['C05'] = dict(
                 'and hands out a free run (the code: the lowest) or, only when there is none, fresh pages (F1, T1: pages_wf / below_hwm invariants); freeing appends exactly the run to pending[tx], with exact multiset accounting '
                 '(F3, T2: pend_ms); release moves exactly the pending lists below the bound (F2); what is persisted is free + pending, sorted, with exact length (F4) in a freshly allocated free-list page '
                 'after the old run was freed, and the header publishes the allocator\'s high-water mark and that page (W1 w6, w8); every page written lies below the high-water mark inside the file (w1, w5); '
-                'a new file starts with two valid headers, an empty free-list page and an empty leaf (O1); node entries stay strictly ascending under insert/delete (N1); a node that is rewritten gives its WHOLE old run back to pending[tx] exactly once, forgets it, and names exactly the run the allocator handed out, long enough for its serialised size; a node merged away takes no page (unit nodeio: Node::free_page / allocate / write); a rewritten child REPLACES the parent entry it was filed under and a new sibling is added in key order, nothing else touched (Node::insert_branch), splitting a node cuts its entries exactly at the index (NodeData::split_at); element headers and payloads '
+                'a new file starts with two valid headers, an empty free-list page and an empty leaf (O1); node entries stay strictly ascending under insert/delete (N1); a node that is rewritten gives its WHOLE old run back to pending[tx] exactly once, forgets it, and names exactly the run the allocator handed out, long enough for its serialised size; a node merged away takes no page (unit nodeio: Node::free_page / allocate / write); a rewritten child REPLACES the parent entry it was filed under and a new sibling is added in key order, nothing else touched (Node::insert_branch), splitting a node cuts its entries exactly at the index (NodeData::split_at); Node::split cuts an over-full node at ascending points into pieces of at least two entries each, '
+                'in order, nothing lost or duplicated, for ANY fill threshold, and registers each piece as a fresh node without a page (unit split; the piece lemma lemma_pieces_concat); NodeData::size IS the serialised size '
+                '(element headers + payloads: the iterator fold is proved, no longer assumed), so the run Node::write asks for is long enough for what Page::write_node lays out; NodeData::merge leaves the union of both nodes in key order and empties the other; '
+                'InnerBucket::spill rewrites every open child bucket that has changes and stores each such child\'s new header under its name exactly once before writing its own nodes, answers with the new root page and does not touch the insertion counter; rebalance / spill / is_dirty keep the allocator frame (unit bucketcommit); element headers and payloads '
                 'round-trip through the real pointer code inside the page run (K2, BOUNDED, thorough tier).',
     level_text='Unbounded proofs of the allocator / free-list / commit-publication obligations on the real code; bounded Kani harnesses (labelled, not counted) for the raw-pointer codec.',
-    level_note='The nested-bucket double free named in the property text (E10, repaired) is now a step obligation of InnerBucket::delete_bucket (a nested root queued for freeing is not already freed by this transaction). NOT decided: that rebalance/spill free each page at most once, key order across pages, separator bounds, '
+    level_note='The nested-bucket double free named in the property text (E10, repaired) is now a step obligation of InnerBucket::delete_bucket (a nested root queued for freeing is not already freed by this transaction). NOT decided: that Node::spill / merge_nodes (assumed interface of unit bucketcommit) free each page at most once, key order across pages, separator bounds, '
                'reachability-exactly-once, and agreement of TxInner::check (a worklist graph traversal, not under contract). L3 composition on paper; fl_nodup is an assumption.',
     assumptions=[A_TOOLS, A_ARITH, A_TREE, A_FILE, A_PAGEMUT, A_ELEMS, A_SEQ],
     not_covered=['duplicated or leaked pages caused by rebalance / merge / spill (bounded: cex/history.rs + DB::check after every commit; reproductions e9, e11)', 'key order across pages and separator bounds (E11 lived here; bounded only)', 'TxInner::check agreement'],
 )
 PROPS['C01'] = dict(
-    bounded_quick=[('history', 'Node::split / spill / write / free_page, InnerBucket::merge_nodes / rebalance / spill (Rc<RefCell<Node>> graph, float thresholds), Page::write_node / Node::from_page beyond the bounded Kani codec'), ('cursor', 'Node::split / spill / write / free_page, InnerBucket::merge_nodes / rebalance / spill (Rc<RefCell<Node>> graph, float thresholds), Page::write_node / Node::from_page beyond the bounded Kani codec')],
+    bounded_quick=[('history', 'Node::spill and InnerBucket::merge_nodes / node (an Rc<RefCell<Node>> graph mutated through shared handles: outside both verifiers), Page::write_node (raw-pointer serialisation) beyond the bounded Kani codec; Node::split / write / free_page / NodeData::merge and InnerBucket::{rebalance, spill, page_node} ARE under contract (units split, nodeio, bucketcommit, overlay)'), ('cursor', 'Node::spill and InnerBucket::merge_nodes / node (an Rc<RefCell<Node>> graph mutated through shared handles: outside both verifiers), Page::write_node (raw-pointer serialisation) beyond the bounded Kani codec; Node::split / write / free_page / NodeData::merge and InnerBucket::{rebalance, spill, page_node} ARE under contract (units split, nodeio, bucketcommit, overlay)')],
     level='other',
     units=['pagenode', 'cursor', 'range', 'guards', 'bucketops', 'bytes', 'split', 'bucketcommit', 'overlay'],
     kani_quick=['layout'],
@@ -208,7 +211,7 @@ PROPS['C01'] = dict(
                 'precondition of the bucket mutators (G1).',
     level_text='Proved leaf-level operations plus bounded codec; the property\'s quantifier over whole histories is NOT decided.',
     level_note='Per-call clauses are proved for InnerBucket::{get, put, delete, put_leaf, delete_bucket, bucket_getter} over an assumed tree interface (the value or error kind a reference map returns, counters, error-changes-nothing, no panic) and for the key type Bytes (ordered as byte strings). '
-               'merge_nodes, spill, root collapse and nested-bucket propagation work on an Rc<RefCell<Node>> graph and are out of reach of both verifiers; the shape-dependent commit panics named in the property text (found as E9, E11, E12 and repaired) are guarded by the bounded oracles and reproductions only.',
+               'Node::split, NodeData::merge, InnerBucket::{rebalance, spill, is_dirty, page_node} are under contract since the seventh round (units split, bucketcommit, overlay); Node::spill, merge_nodes, root collapse and InnerBucket::node mutate an Rc<RefCell<Node>> graph through shared handles and are out of reach of both verifiers; the shape-dependent commit panics named in the property text (found as E9, E11, E12 and repaired) are guarded by the bounded oracles and reproductions only.',
     assumptions=[A_TOOLS, A_ARITH, A_TREEIF, A_ELEMS, 'RefCell stand-in', 'byte-string order is a strict total order'],
     not_covered=['deductively: every history-level clause of the statement (commit/reopen equivalence with a reference nested map across transactions); these are exercised only by the BOUNDED history oracle cex/history.rs that runs on every check', 'rebalance / spill / merge / root collapse (InnerBucket::merge_nodes, Node::spill/split): bounded oracles and reproductions e9, e11, e12 only'],
 )
